@@ -11,6 +11,8 @@ import (
 	"go/ast"
 	"go/parser"
 	"go/token"
+	"go/types"
+	"golang.org/x/tools/go/packages"
 	"os"
 	"path/filepath"
 	"sort"
@@ -1171,80 +1173,141 @@ func genGrammar(repo, outdir string) {
 
 // ---------- sites: map ranges, goroutines, channels, time/rand, panics ----------
 
+func rangeKind(t types.Type) string {
+	if t == nil {
+		return "unknown"
+	}
+	switch u := t.Underlying().(type) {
+	case *types.Map:
+		return "map"
+	case *types.Slice, *types.Array:
+		return "slice"
+	case *types.Pointer:
+		if _, ok := u.Elem().Underlying().(*types.Array); ok {
+			return "slice"
+		}
+		return "unknown"
+	case *types.Chan:
+		return "chan"
+	case *types.Signature:
+		return "func"
+	case *types.Basic:
+		if u.Info()&types.IsString != 0 {
+			return "string"
+		}
+		if u.Info()&types.IsInteger != 0 {
+			return "int"
+		}
+	}
+	return "unknown"
+}
+
+// genSites type-checks /repo's packages (go/packages, offline) and lists every construct whose behaviour can
+// depend on something other than the program's input: ranges over maps, channels and iterator functions,
+// goroutines, selects, channel sends, time/rand/env reads, and every panic/Must call.  Ranges over slices,
+// arrays, strings and integers are deterministic and are only counted.
 func genSites(repo, outdir string) {
+	cfg := &packages.Config{
+		Mode: packages.NeedName | packages.NeedFiles | packages.NeedSyntax | packages.NeedTypes | packages.NeedTypesInfo | packages.NeedImports | packages.NeedDeps,
+		Dir:  repo,
+		Env:  append(os.Environ(), "GOFLAGS=-mod=mod", "GOPROXY=off"),
+	}
+	pkgs, err := packages.Load(cfg, "./...")
+	if err != nil {
+		fatalf("go/packages: %v", err)
+	}
 	var sites []string
-	filepath.Walk(repo, func(path string, info os.FileInfo, err error) error {
-		if err != nil {
-			return nil
+	ordered := 0
+	for _, pkg := range pkgs {
+		if len(pkg.Errors) > 0 {
+			fatalf("type errors in %s: %v", pkg.PkgPath, pkg.Errors[0])
 		}
-		if info.IsDir() {
-			if info.Name() == ".git" || info.Name() == "example" {
-				return filepath.SkipDir
-			}
-			return nil
+		if strings.HasSuffix(pkg.PkgPath, "/example") {
+			continue
 		}
-		if !strings.HasSuffix(path, ".go") || strings.HasSuffix(path, "_test.go") || strings.HasSuffix(path, "_generated.go") {
-			return nil
-		}
-		src, _ := os.ReadFile(path)
-		if strings.Contains(string(src), "//go:build verif") {
-			return nil
-		}
-		fset := token.NewFileSet()
-		f, err := parser.ParseFile(fset, path, src, 0)
-		if err != nil {
-			fatalf("%v", err)
-		}
-		rel, _ := filepath.Rel(repo, path)
-		// package-level map-typed vars and struct fields by name (syntactic approximation)
-		for _, d := range f.Decls {
-			fd, ok := d.(*ast.FuncDecl)
-			if !ok || fd.Body == nil {
+		for _, f := range pkg.Syntax {
+			path := pkg.Fset.Position(f.Pos()).Filename
+			if strings.HasSuffix(path, "_test.go") || strings.HasSuffix(path, "_generated.go") || !strings.HasPrefix(path, repo) {
 				continue
 			}
-			fn := fd.Name.Name
-			if fd.Recv != nil && len(fd.Recv.List) == 1 {
-				fn = recvName(fd.Recv.List[0].Type) + "." + fn
+			src, _ := os.ReadFile(path)
+			if strings.Contains(string(src), "//go:build verif") {
+				continue
 			}
-			ast.Inspect(fd.Body, func(n ast.Node) bool {
-				switch n := n.(type) {
-				case *ast.GoStmt:
-					sites = append(sites, fmt.Sprintf("go %s %s", rel, fn))
-				case *ast.SelectStmt:
-					sites = append(sites, fmt.Sprintf("select %s %s", rel, fn))
-				case *ast.SendStmt:
-					sites = append(sites, fmt.Sprintf("chansend %s %s", rel, fn))
-				case *ast.RangeStmt:
-					sites = append(sites, fmt.Sprintf("range %s %s %s", rel, fn, typeString(n.X)))
-				case *ast.CallExpr:
-					name := typeString(n.Fun)
-					switch {
-					case name == "panic" || strings.HasPrefix(name, "logx.Panic"):
-						sites = append(sites, fmt.Sprintf("panic %s %s %s", rel, fn, name))
-					case strings.Contains(name, "Must"):
-						sites = append(sites, fmt.Sprintf("must %s %s %s", rel, fn, name))
-					case strings.HasPrefix(name, "time.") || strings.HasPrefix(name, "rand.") || name == "os.Getenv":
-						sites = append(sites, fmt.Sprintf("env %s %s %s", rel, fn, name))
+			rel, _ := filepath.Rel(repo, path)
+			visit := func(fn string, root ast.Node, initOnly bool) {
+				ast.Inspect(root, func(n ast.Node) bool {
+					switch n := n.(type) {
+					case *ast.GoStmt:
+						sites = append(sites, fmt.Sprintf("go %s %s", rel, fn))
+					case *ast.SelectStmt:
+						sites = append(sites, fmt.Sprintf("select %s %s", rel, fn))
+					case *ast.SendStmt:
+						sites = append(sites, fmt.Sprintf("chansend %s %s", rel, fn))
+					case *ast.RangeStmt:
+						k := rangeKind(pkg.TypesInfo.TypeOf(n.X))
+						switch k {
+						case "slice", "string", "int":
+							ordered++
+						default:
+							sites = append(sites, fmt.Sprintf("range-%s %s %s %s", k, rel, fn, typeString(n.X)))
+						}
+					case *ast.CallExpr:
+						name := typeString(n.Fun)
+						switch {
+						case name == "panic" || strings.HasPrefix(name, "logx.Panic"):
+							sites = append(sites, fmt.Sprintf("panic %s %s %s", rel, fn, name))
+						case strings.Contains(name, "Must"):
+							sites = append(sites, fmt.Sprintf("must %s %s %s", rel, fn, name))
+						case strings.HasPrefix(name, "slices.Sort") || strings.HasPrefix(name, "sort."):
+							sites = append(sites, fmt.Sprintf("sort %s %s %s", rel, fn, name))
+						case strings.HasPrefix(name, "time.") || strings.HasPrefix(name, "rand.") || name == "os.Getenv" || name == "maps.Keys" || name == "maps.Values" || name == "maps.All":
+							sites = append(sites, fmt.Sprintf("env %s %s %s", rel, fn, name))
+						}
+					}
+					return true
+				})
+			}
+			for _, d := range f.Decls {
+				switch d := d.(type) {
+				case *ast.FuncDecl:
+					if d.Body == nil {
+						continue
+					}
+					fn := d.Name.Name
+					if d.Recv != nil && len(d.Recv.List) == 1 {
+						fn = recvName(d.Recv.List[0].Type) + "." + fn
+					}
+					visit(fn, d.Body, false)
+				case *ast.GenDecl:
+					if d.Tok != token.VAR {
+						continue
+					}
+					for _, sp := range d.Specs {
+						vs, ok := sp.(*ast.ValueSpec)
+						if !ok {
+							continue
+						}
+						name := "<init>"
+						// a cobra command literal: name the site after the variable
+						for _, v := range vs.Values {
+							hasFunc := false
+							ast.Inspect(v, func(n ast.Node) bool {
+								if _, ok := n.(*ast.FuncLit); ok {
+									hasFunc = true
+								}
+								return !hasFunc
+							})
+							if hasFunc && len(vs.Names) > 0 {
+								name = vs.Names[0].Name
+							}
+							visit(name, v, true)
+						}
 					}
 				}
-				return true
-			})
-		}
-		// package-level initialisers calling Must*
-		for _, d := range f.Decls {
-			gd, ok := d.(*ast.GenDecl)
-			if !ok || gd.Tok != token.VAR {
-				continue
 			}
-			ast.Inspect(gd, func(n ast.Node) bool {
-				if c, ok := n.(*ast.CallExpr); ok && strings.Contains(typeString(c.Fun), "Must") {
-					sites = append(sites, fmt.Sprintf("must %s <init> %s", rel, typeString(c.Fun)))
-				}
-				return true
-			})
 		}
-		return nil
-	})
+	}
 	sort.Strings(sites)
 	o := &out{}
 	o.f("namespace Crd.Generated\n\n")
@@ -1253,6 +1316,15 @@ func genSites(repo, outdir string) {
 		items = append(items, leanStr(s))
 	}
 	o.list("sites", "List String", items)
+	var oitems []string
+	for _, s := range sites {
+		if !strings.HasPrefix(s, "must ") && !strings.HasPrefix(s, "panic ") {
+			oitems = append(oitems, leanStr(s))
+		}
+	}
+	o.f("/-- the sites whose behaviour can depend on something other than the input (C12) -/\n")
+	o.list("orderSites", "List String", oitems)
+	o.f("/-- ranges over slices, arrays, strings and integers (deterministic order) -/\ndef orderedRanges : Nat := %d\n\n", ordered)
 	o.f("end Crd.Generated\n")
 	write(outdir, "Sites.lean", o)
 }
